@@ -156,7 +156,7 @@ def patched(pairs):
 def _snap(b):
     fl = b.function_logger
     return dict(
-        k=int(b.mesh_size_integer), mesh=float(b.mesh_size), fval=_f(getattr(b, "fval", np.nan)),
+        k=float(b.mesh_size_integer), mesh=float(b.mesh_size), os_mesh=float(b.optim_state["mesh_size"]), fval=_f(getattr(b, "fval", np.nan)),
         yval=_f(getattr(b, "yval", np.nan)), fsd=_f(getattr(b, "fsd", np.nan)),
         u=np.array(b.u, dtype=float).ravel().copy(), func_count=int(fl.func_count),
         search_count=_f(b.optim_state.get("search_count", -1)), iter=int(b.optim_state.get("iter", -1)),
@@ -224,8 +224,8 @@ def run(scn, want=(), fault=None, script=None, fit_faults=None, probe_limit=True
 
     def probe(self, loop_iter, poll_iteration, do_poll_step, is_finished, msg):
         tr.probes.append(dict(loop_iter=int(loop_iter), poll_iter=int(poll_iteration), do_poll=bool(do_poll_step),
-                              finished=bool(is_finished), msg=str(msg), k=int(self.mesh_size_integer),
-                              mesh=float(self.mesh_size), ncalls=len(tr.calls),
+                              finished=bool(is_finished), msg=str(msg), k=float(self.mesh_size_integer),
+                              mesh=float(self.mesh_size), os_mesh=float(self.optim_state["mesh_size"]), ncalls=len(tr.calls),
                               func_count=int(self.function_logger.func_count),
                               search_count=_f(self.optim_state["search_count"]),
                               search_mesh=float(self.optim_state["search_mesh_size"]),
